@@ -37,6 +37,28 @@ class Obj:
         return "<%s %r>" % (self.cls, self.f)
 
 
+class FObj(Obj):
+    """immutable record usable as a map key (compared by value)"""
+    def _k(self):
+        return (self.cls, tuple(sorted(self.f.items(), key=lambda kv: kv[0])))
+
+    def __eq__(self, o):
+        return isinstance(o, FObj) and self._k() == o._k()
+
+    def __ne__(self, o):
+        return not self.__eq__(o)
+
+    def __lt__(self, o):
+        return self._k() < o._k()
+
+    def __hash__(self):
+        return hash(self._k())
+
+
+def pair(a, b):
+    return Obj("pair", first=a, second=b)
+
+
 class Ptr:
     def __init__(self, lst, off):
         self.lst, self.off = lst, off
@@ -146,8 +168,8 @@ class Frame:
             pass
         elif k == "decl":
             for v in n["vars"]:
-                if v.get("static"):
-                    self.bad(i, "static local")
+                if v.get("static") and "const" not in (v.get("t") or ""):
+                    self.bad(i, "mutable static local")
                 val = self.eval(v["init"]) if v.get("init") is not None else None
                 if isinstance(val, list) and not v.get("ref"):
                     val = list(val)
@@ -224,7 +246,7 @@ class Frame:
             return num(n["v"])
         if k == "ref":
             dk = n["dk"]
-            if dk in ("local", "param"):
+            if dk in ("local", "param", "staticlocal"):
                 if n["d"] not in self.env:
                     self.bad(i, "unbound variable")
                 return self.env[n["d"]]
@@ -234,15 +256,18 @@ class Frame:
                 return STREAM
             if dk == "func":
                 return ("func", n.get("q"))
+            if dk == "global" and ("global " + str(n.get("q"))) in self.ip.prims:
+                return self.ip.prims["global " + n["q"]]
             self.bad(i, "reference kind " + dk)
         if k == "this":
             return self.this
         if k == "member":
             o = self.eval(n["base"])
             if isinstance(o, Obj):
-                if n["q"] not in o.f:
-                    self.bad(i, "record has no field " + n["q"])
-                return o.f[n["q"]]
+                for nm_ in (n.get("q"), strip_targs(n.get("q") or ""), n.get("n")):
+                    if nm_ in o.f:
+                        return o.f[nm_]
+                self.bad(i, "record has no field " + str(n.get("q")))
             if isinstance(o, MapIter) and n.get("n") in ("first", "second"):
                 if o.key is None:
                     raise Thrown("dereference of map::end()", self.fn.loc(i))
@@ -250,6 +275,13 @@ class Frame:
             self.bad(i, "member of a non-record")
         if k in ("cast", "defarg"):
             return self.eval(n["sub"])
+        if k == "index":
+            c, ix = self.eval(n["base"]), self.eval(n["idx"])
+            if isinstance(c, Ptr):
+                c, ix = c.lst, c.off + ix
+            if not (isinstance(c, list) and isinstance(ix, int) and 0 <= ix < len(c)):
+                raise Thrown("out-of-range array subscript", self.fn.loc(i))
+            return c[ix]
         if k == "valueinit":
             return 0
         if k == "initlist":
@@ -312,11 +344,15 @@ class Frame:
             cn = strip_targs(n.get("cname") or "")
             if cn.startswith("std::basic_string::") and len(args) >= 1:
                 return self.eval(args[0])
+            if strip_targs(n.get("crec") or "") == "std::pair" and len(args) == 2:
+                return pair(self.eval(args[0]), self.eval(args[1]))
+            if strip_targs(n.get("crec") or "") in ("boost::shared_ptr", "std::shared_ptr") and len(args) == 1:
+                return self.eval(args[0])
             if (n.get("crec") or "") == "std::complex" and len(args) in (1, 2):
                 re_ = self.eval(args[0])
                 im_ = self.eval(args[1]) if len(args) == 2 else 0
                 return re_ if im_ == 0 else sp.sympify(re_) + sp.I * sp.sympify(im_)
-            prim = self.ip.prims.get("construct " + (n.get("crec") or ""))
+            prim = self.ip.prims.get("construct " + (n.get("crec") or "")) or self.ip.prims.get("construct " + strip_targs(n.get("crec") or ""))
             if prim is not None:
                 return prim(self, i, [self.eval(a) for a in args])
             self.bad(i, "construction of " + (n.get("crec") or "?"))
@@ -450,6 +486,20 @@ class Frame:
                     return MapIter(obj, None)
                 if short == "count" and len(args) == 1:
                     return 1 if self.eval(args[0]) in obj else 0
+                if short in ("insert", "emplace") and len(args) == 1:
+                    pr = self.eval(args[0])
+                    if not (isinstance(pr, Obj) and pr.cls == "pair"):
+                        self.bad(i, "map::insert of a non-pair")
+                    kk = pr.f["first"]
+                    fresh = kk not in obj
+                    if fresh:
+                        obj[kk] = pr.f["second"]
+                    return pair(MapIter(obj, kk), fresh)
+                if short == "size" and not args:
+                    return len(obj)
+                if short == "clear" and not args:
+                    obj.clear()
+                    return None
                 self.bad(i, "map method " + short)
             if short == "operator bool" and isinstance(obj, (int, bool)) and not args:
                 return bool(obj)
@@ -465,6 +515,8 @@ class Frame:
             if cn in ("std::abs", "abs", "std::fabs", "fabs") and len(args) == 1:
                 v = self.eval(args[0])
                 return abs(v) if isinstance(v, (int, float)) else sp.Abs(v)
+            if cn == "std::make_pair" and len(args) == 2:
+                return pair(self.eval(args[0]), self.eval(args[1]))
             if cn in ("std::conj", "conj") and len(args) == 1:
                 v = self.eval(args[0])
                 return sp.conjugate(sp.sympify(v))
